@@ -14,8 +14,13 @@ theorem run_cons (σ : PS) (a : Ev) (b : List Ev) : run σ (a :: b) = run (stepE
 
 theorem run_wl (σ : PS) (a : Option Str) (b : List Ev) : run σ (.wl a :: b) = run (step σ a) b := rfl
 
-theorem run_blk (d : Nat) (st : List (Option Str)) (out : List (Nat × Str)) (t : Str) (b : List Ev) :
-    run ⟨d, st, out, false⟩ (.blk t :: b) = run ⟨d, st, out ++ [(d, t)], false⟩ b := rfl
+theorem run_blk (d : Nat) (st : List (Option Str)) (out : List (Nat × Str)) (e : Bool) (t : Str) (b : List Ev) :
+    run ⟨d, st, out, false, e⟩ (.blk t :: b) = run ⟨d, st, out ++ [(d, t)], false, false⟩ b := rfl
+
+theorem flagAfter_append (e : Bool) (a b : List Ev) : flagAfter e (a ++ b) = flagAfter (flagAfter e a) b := by
+  simp [flagAfter, List.foldl_append]
+
+theorem flagAfter_cons (e : Bool) (a : Ev) (b : List Ev) : flagAfter e (a :: b) = flagAfter (flagAfterEv e a) b := rfl
 
 theorem run_nil (σ : PS) : run σ [] = σ := rfl
 
@@ -26,8 +31,9 @@ theorem isUnindentor_false {st : List (Option Str)} {s : Str} (h : reUnindentor 
   | cons t r => cases t <;> simp [isUnindentor, h]
 
 /-- a simple line is written at the current level and changes nothing -/
-theorem step_line {d : Nat} {st : List (Option Str)} {out : List (Nat × Str)} {s : Str} (h : LineOk s = true) :
-    step ⟨d, st, out, false⟩ (some s) = ⟨d, st, out ++ [(d, s)], false⟩ := by
+theorem step_line {d : Nat} {st : List (Option Str)} {out : List (Nat × Str)} {e : Bool} {s : Str}
+    (h : LineOk s = true) :
+    step ⟨d, st, out, false, e⟩ (some s) = ⟨d, st, out ++ [(d, s)], false, false⟩ := by
   simp only [LineOk, Bool.and_eq_true, Bool.or_eq_true, Option.isNone_iff_eq_none, Bool.not_eq_true'] at h
   obtain ⟨h1, h2⟩ := h
   have hd : (!isComment (some s) && (!hasText (some s) || isUnindentor st s) && decide (d > 0)) = false := by
@@ -49,25 +55,25 @@ theorem opens_isSome {h : Str} {top : Option Str} (ho : opens h = some top) : to
   · cases ho
 
 /-- a header that is no continuation clause: written at the current level, opens the next -/
-theorem step_header {d : Nat} {st : List (Option Str)} {out : List (Nat × Str)} {h : Str} {top : Option Str}
-    (hh : HeaderOk h = true) (hc : isCont h = false) (ho : opens h = some top) :
-    step ⟨d, st, out, false⟩ (some h) = ⟨d + 1, top :: st, out ++ [(d, h)], false⟩ := by
+theorem step_header {d : Nat} {st : List (Option Str)} {out : List (Nat × Str)} {e : Bool} {h : Str}
+    {top : Option Str} (hh : HeaderOk h = true) (hc : isCont h = false) (ho : opens h = some top) :
+    step ⟨d, st, out, false, e⟩ (some h) = ⟨d + 1, top :: st, out ++ [(d, h)], false, true⟩ := by
   simp only [HeaderOk, Bool.and_eq_true, Bool.not_eq_true'] at hh
   have hd : (!isComment (some h) && (!hasText (some h) || isUnindentor st h) && decide (d > 0)) = false := by
     simp [hh.1.1, isUnindentor_false hc]
   simp [step, hd, ho]
 
 /-- a continuation clause after a suite opened by a `_re_compound` keyword: unindents, is written, indents -/
-theorem step_cont {d : Nat} {st : List (Option Str)} {out : List (Nat × Str)} {h : Str} {top : Option Str} {k : Str}
-    (hh : HeaderOk h = true) (hc : isCont h = true) (ho : opens h = some top) :
-    step ⟨d + 1, some k :: st, out, false⟩ (some h) = ⟨d + 1, top :: st, out ++ [(d, h)], false⟩ := by
+theorem step_cont {d : Nat} {st : List (Option Str)} {out : List (Nat × Str)} {e : Bool} {h : Str}
+    {top : Option Str} {k : Str} (hh : HeaderOk h = true) (hc : isCont h = true) (ho : opens h = some top) :
+    step ⟨d + 1, some k :: st, out, false, e⟩ (some h) = ⟨d + 1, top :: st, out ++ [(d, h)], false, true⟩ := by
   simp only [HeaderOk, Bool.and_eq_true, Bool.not_eq_true'] at hh
   have hu : isUnindentor (some k :: st) h = true := by simpa [isUnindentor, isCont] using hc
   simp [step, hh.1.2, hu, ho]
 
 /-- the dedent marker `None` -/
-theorem step_none {d : Nat} {st : List (Option Str)} {out : List (Nat × Str)} {t : Option Str} :
-    step ⟨d + 1, t :: st, out, false⟩ none = ⟨d, st, out, false⟩ := by
+theorem step_none {d : Nat} {st : List (Option Str)} {out : List (Nat × Str)} {e : Bool} {t : Option Str} :
+    step ⟨d + 1, t :: st, out, false, e⟩ none = ⟨d, st, out, false, e⟩ := by
   simp [step, isComment, hasText]
 
 /-- what follows a suite: the next clause, or `None` and the rest -/
@@ -82,19 +88,21 @@ theorem HeaderOk_opens {h : Str} (hh : HeaderOk h = true) : ∃ top, opens h = s
 /-- **The printer follows the structure.**  From any state, the emission of a good program is written with
     the program's own indentation, and the state is restored; after a suite (`emitAfter`) the level opened by
     its header is closed – by the `None` marker or by the continuation clause itself. -/
-theorem run_emit : ∀ (P : Prog) (prev : Option Bool) (d : Nat) (st : List (Option Str)) (out : List (Nat × Str)),
-    good prev P = true →
-    (startsCont P = false → run ⟨d, st, out, false⟩ (emit P) = ⟨d, st, out ++ layout d P, false⟩) ∧
+theorem run_emit : ∀ (P : Prog) (prev : Option Bool) (d : Nat) (st : List (Option Str)) (out : List (Nat × Str))
+    (e : Bool), good prev P = true →
+    (startsCont P = false →
+      run ⟨d, st, out, false, e⟩ (emit P) = ⟨d, st, out ++ layout d P, false, flagAfter e (emit P)⟩) ∧
     (∀ top : Option Str, prev = some top.isSome →
-      run ⟨d + 1, top :: st, out, false⟩ (emitAfter P) = ⟨d, st, out ++ layout d P, false⟩) := by
+      run ⟨d + 1, top :: st, out, false, e⟩ (emitAfter P) =
+        ⟨d, st, out ++ layout d P, false, flagAfter e (emitAfter P)⟩) := by
   intro P
   induction P with
   | nil =>
-    intro prev d st out _
-    refine ⟨fun _ => by simp [emit, layout, run_nil], fun top _ => ?_⟩
-    simp [emitAfter, startsCont, emit, layout, run_wl, run_nil, step_none]
+    intro prev d st out e _
+    refine ⟨fun _ => by simp [emit, layout, run_nil, flagAfter], fun top _ => ?_⟩
+    simp [emitAfter, startsCont, emit, layout, run_wl, run_nil, step_none, flagAfter, flagAfterEv]
   | line raw s r ih =>
-    intro prev d st out hg
+    intro prev d st out e hg
     simp only [good, Bool.and_eq_true] at hg
     have hr : startsCont r = false := by
       cases r with
@@ -105,27 +113,33 @@ theorem run_emit : ∀ (P : Prog) (prev : Option Bool) (d : Nat) (st : List (Opt
         · exact h1
         · cases h1
       | _ => rfl
-    have main : ∀ d st out, run ⟨d, st, out, false⟩ (emit (.line raw s r)) =
-        ⟨d, st, out ++ layout d (.line raw s r), false⟩ := by
-      intro d st out
+    have main : ∀ d st out e, run ⟨d, st, out, false, e⟩ (emit (.line raw s r)) =
+        ⟨d, st, out ++ layout d (.line raw s r), false, flagAfter e (emit (.line raw s r))⟩ := by
+      intro d st out e
       cases raw with
       | true =>
         simp only [emit, if_true]
-        rw [run_blk, (ih none d st _ hg.2).1 hr]
-        simp [layout]
+        rw [run_blk, (ih none d st _ false hg.2).1 hr]
+        simp [layout, flagAfter_cons, flagAfterEv]
       | false =>
         simp only [Bool.false_or] at hg
+        have hop : (opens s).isSome = false := by
+          have := hg.1
+          simp only [LineOk, Bool.and_eq_true, Option.isNone_iff_eq_none] at this
+          simp [this.2]
         simp only [emit, Bool.false_eq_true, if_false]
-        rw [run_wl, step_line hg.1, (ih none d st _ hg.2).1 hr]
-        simp [layout]
-    refine ⟨fun _ => main d st out, fun top _ => ?_⟩
+        rw [run_wl, step_line hg.1, (ih none d st _ false hg.2).1 hr]
+        simp [layout, flagAfter_cons, flagAfterEv, hop]
+    refine ⟨fun _ => main d st out e, fun top _ => ?_⟩
     simp only [emitAfter, startsCont, Bool.false_eq_true, if_false, run_wl, step_none]
-    exact main d st out
+    rw [main d st out e]
+    simp [flagAfter_cons, flagAfterEv]
   | comp h b r ihb ihr =>
-    intro prev d st out hg
+    intro prev d st out e hg
     simp only [good, Bool.and_eq_true, Bool.or_eq_true, Bool.not_eq_true', beq_iff_eq] at hg
     obtain ⟨⟨⟨hh, hcp⟩, hgb⟩, hgr⟩ := hg
     obtain ⟨top', ho⟩ := HeaderOk_opens hh
+    have hop : (opens h).isSome = true := by simp [ho]
     have hb0 : startsCont b = false := by
       cases b with
       | comp h2 b2 r2 =>
@@ -135,15 +149,19 @@ theorem run_emit : ∀ (P : Prog) (prev : Option Bool) (d : Nat) (st : List (Opt
         · cases h1
       | _ => rfl
     -- after the header has been written at level `d`
-    have tail : ∀ out', run ⟨d + 1, top' :: st, out', false⟩ (emit b ++ emitAfter r) =
-        ⟨d, st, out' ++ (layout (d + 1) b ++ layout d r), false⟩ := by
+    have tail : ∀ out', run ⟨d + 1, top' :: st, out', false, true⟩ (emit b ++ emitAfter r) =
+        ⟨d, st, out' ++ (layout (d + 1) b ++ layout d r), false, flagAfter true (emit b ++ emitAfter r)⟩ := by
       intro out'
-      rw [run_append, (ihb none (d + 1) (top' :: st) out' hgb).1 hb0,
-        (ihr (some (isCompound h)) d st _ hgr).2 top' (by rw [opens_isSome ho])]
-      simp
+      rw [run_append, (ihb none (d + 1) (top' :: st) out' true hgb).1 hb0,
+        (ihr (some (isCompound h)) d st _ _ hgr).2 top' (by rw [opens_isSome ho])]
+      simp [flagAfter_append]
+    have fl : ∀ e', flagAfter e' (emit (.comp h b r)) = flagAfter true (emit b ++ emitAfter r) := by
+      intro e'
+      rw [emit_comp, flagAfter_cons]
+      simp [flagAfterEv, hop]
     refine ⟨fun hs => ?_, fun top ht => ?_⟩
     · have hc : isCont h = false := hs
-      rw [emit_comp, run_wl, step_header hh hc ho, tail]
+      rw [fl, emit_comp, run_wl, step_header hh hc ho, tail]
       simp [layout]
     · by_cases hc : isCont h = true
       · have hp : prev = some true := by
@@ -154,16 +172,16 @@ theorem run_emit : ∀ (P : Prog) (prev : Option Bool) (d : Nat) (st : List (Opt
         have : top.isSome = true := by simpa using ht.symm
         obtain ⟨k, rfl⟩ := Option.isSome_iff_exists.mp this
         have he : emitAfter (.comp h b r) = emit (.comp h b r) := by simp [emitAfter, startsCont, hc]
-        rw [he, emit_comp, run_wl, step_cont hh hc ho, tail]
+        rw [he, fl, emit_comp, run_wl, step_cont hh hc ho, tail]
         simp [layout]
       · have hc' : isCont h = false := by simpa using hc
         have he : emitAfter (.comp h b r) = .wl none :: emit (.comp h b r) := by simp [emitAfter, startsCont, hc']
-        rw [he, run_wl, step_none, emit_comp, run_wl, step_header hh hc' ho, tail]
+        rw [he, flagAfter_cons, fl, run_wl, step_none, emit_comp, run_wl, step_header hh hc' ho, tail]
         simp [layout]
 
 /-- from the initial state -/
 theorem printed_layout (P : Prog) (hg : good none P = true) :
-    printed P = ⟨0, [], layout 0 P, false⟩ := by
+    printed P = ⟨0, [], layout 0 P, false, flagAfter false (emit P)⟩ := by
   have hs : startsCont P = false := by
     cases P with
     | comp h b r =>
@@ -172,8 +190,47 @@ theorem printed_layout (P : Prog) (hg : good none P = true) :
       · exact h1
       · cases h1
     | _ => rfl
-  have := (run_emit P none 0 [] [] hg).1 hs
+  have := (run_emit P none 0 [] [] false hg).1 hs
   simpa [printed, PS.init] using this
+
+/-- the flag the printer keeps is a function of the calls: after any error-free run, `suite_is_empty` is
+    `flagAfter` of the calls -/
+theorem stepEv_err (σ : PS) (ev : Ev) (h : σ.err = true) : stepEv σ ev = σ := by
+  cases ev <;> simp [stepEv, step, h]
+
+theorem run_err (σ : PS) (evs : List Ev) (h : σ.err = true) : run σ evs = σ := by
+  induction evs with
+  | nil => rfl
+  | cons ev evs ih => rw [run_cons, stepEv_err σ ev h, ih]
+
+theorem stepEv_empty (σ : PS) (ev : Ev) (h : (stepEv σ ev).err = false) :
+    (stepEv σ ev).empty = flagAfterEv σ.empty ev := by
+  have h0 : σ.err = false := by
+    cases he : σ.err with
+    | false => rfl
+    | true => rw [stepEv_err σ ev he] at h; rw [he] at h; cases h
+  cases ev with
+  | blk t => simp [stepEv, h0, flagAfterEv]
+  | wl l =>
+    cases l with
+    | none =>
+      simp only [stepEv, step, h0, Bool.false_eq_true, if_false, flagAfterEv] at h ⊢
+      split <;> (try split) <;> simp_all
+    | some s =>
+      cases ho : opens s <;>
+      · simp only [stepEv, step, h0, ho, Bool.false_eq_true, if_false, flagAfterEv] at h ⊢
+        split at h <;> (try split at h) <;> simp_all
+
+theorem run_empty : ∀ (evs : List Ev) (σ : PS), (run σ evs).err = false →
+    (run σ evs).empty = flagAfter σ.empty evs
+  | [], _, _ => rfl
+  | ev :: evs, σ, h => by
+    rw [run_cons] at h ⊢
+    have h1 : (stepEv σ ev).err = false := by
+      cases he : (stepEv σ ev).err with
+      | false => rfl
+      | true => rw [run_err _ evs he] at h; rw [he] at h; cases h
+    rw [run_empty evs _ h, stepEv_empty σ ev h1, flagAfter_cons]
 
 /-! ## reading the layout back -/
 
